@@ -326,6 +326,10 @@ def write_evidence(mod, pid, tier, seed, hs, results, extra, nviol, wall, partia
         "wall_s": round(wall, 2),
         "violations": nviol,
     }
-    p = os.path.join(VERIF, "evidence", f"{pid}.json")
+    # evidence describes /repo; a run against another checkout (VERIF_REPO, used for seeded-change
+    # experiments and background sweeps) must not overwrite it
+    evdir = os.path.join(VERIF, "evidence") if os.path.realpath(REPO) == "/repo" else os.path.join("/tmp", "hdverif-evidence-other")
+    os.makedirs(evdir, exist_ok=True)
+    p = os.path.join(evdir, f"{pid}.json")
     with open(p, "w") as fh:
         json.dump(ev, fh, indent=1)
